@@ -58,6 +58,10 @@ pub struct ArmedCtx {
     timeout_secs: u16,
     fab_idx: u8,
     flags: NocFlags,
+    /// A fabric-scoped write (ACL, groups, group keys, label) of the fabric `fab_idx` was
+    /// accepted but NOT stored, because the fail-safe is armed for that fabric: it becomes
+    /// permanent with `CommissioningComplete` and is dropped by the expiry.
+    deferred: bool,
 }
 
 #[derive(PartialEq)]
@@ -315,6 +319,7 @@ impl FailSafe {
                 timeout_secs,
                 fab_idx: session_mode.fab_idx(),
                 flags: NocFlags::empty(),
+                deferred: false,
             });
             self.breadcrumb = breadcrumb;
 
@@ -442,6 +447,24 @@ impl FailSafe {
         match self.state {
             State::Idle => false,
             State::Armed(ArmedCtx { fab_idx, .. }) => fab_idx == caller_fab_idx,
+        }
+    }
+
+    /// To be used - instead of [`FailSafe::is_armed_for`] - by the fabric-scoped writes (ACL,
+    /// groups, group keys, fabric label) that do NOT store the fabric while the fail-safe is
+    /// armed for it: returns whether the store is to be deferred, and remembers in the
+    /// fail-safe context that a deferred change of its fabric is pending.
+    ///
+    /// `AddNOC` re-binds the fail-safe context to the fabric it adds; it is refused while such
+    /// a change is pending, as that change would then neither be rolled back by the expiry nor
+    /// be stored by `CommissioningComplete`.
+    pub fn defers_store_for(&mut self, caller_fab_idx: u8) -> bool {
+        match &mut self.state {
+            State::Armed(ctx) if ctx.fab_idx == caller_fab_idx => {
+                ctx.deferred = true;
+                true
+            }
+            _ => false,
         }
     }
 
@@ -684,6 +707,16 @@ impl FailSafe {
             NocFlags::ADD_NOC_RECVD | NocFlags::UPDATE_CSR_REQ_RECVD | NocFlags::UPDATE_NOC_RECVD,
             NocFlags::ADD_NOC_RECVD,
         )?;
+
+        if let State::Armed(ctx) = &self.state {
+            if ctx.fab_idx != 0 && ctx.deferred {
+                // The context is bound to an existing fabric (it was armed over a CASE
+                // session) and holds deferred fabric-scoped changes of that fabric. Re-binding
+                // it to the new fabric would strand them: neither the expiry would roll them
+                // back, nor would `CommissioningComplete` store them.
+                Err(ErrorCode::Busy)?;
+            }
+        }
 
         // CaseAdminSubject must be either a valid Operational Node ID or a
         // CASE Authenticated Tag (CAT) — Matter Core spec
